@@ -218,6 +218,15 @@ pub fn net_in_request(n: Network) -> NetworkInRequest {
     }
 }
 
+/// Both spellings the interface accepts for a network.
+pub fn net_in_request_spellings(n: Network) -> [NetworkInRequest; 2] {
+    match n {
+        Network::Mainnet => [NetworkInRequest::Mainnet, NetworkInRequest::mainnet],
+        Network::Testnet => [NetworkInRequest::Testnet, NetworkInRequest::testnet],
+        Network::Regtest => [NetworkInRequest::Regtest, NetworkInRequest::regtest],
+    }
+}
+
 pub type UtxosResult = Result<Result<GetUtxosResponse, GetUtxosError>, Trap>;
 
 pub fn get_utxos_query(address: &str, net: Network, filter: Option<UtxosFilterInRequest>) -> UtxosResult {
